@@ -9,7 +9,10 @@
            draws its own 255-bit ones); casts / p2p = the msgKeys it handed over; feld = every handed share verifies
            (kryptology FeldmanVerifier.Verify) against the commitments cast for the same validator; ids = every share
            carries the id of its target
-     {"ev":"D1C"|"D1P"|"D2","i":i,"j":j}       mode mem: the transport delivers i's batch to j
+     {"ev":"D1C"|"D1P"|"D2","i":i,"j":j[,"ok":b]}   modes mem, cb: the transport delivers i's batch to j (cb: the real
+                                               callback returned without error)
+     {"ev":"RD","i":i,"j":j,"k":"c1"|"c2"|"p1","ok":b}   mode cb: a batch j already received is handed to its
+                                               callback AGAIN (same message id, same signed content)
      {"ev":"Ret1","j":j,"ok":b,"casts":[..]}   j's Round1 call answered; ok = j entered transport Round2; its msgKeys
      {"ev":"Ret2","j":j,"ok":b,"pskeys":[[keys of PublicShares] per result]}   j's Round2 answered; j returned
      {"ev":"Check", "gkeq":[b per v], "pseq":[b per v], "own":[[b per v] per node],
@@ -32,6 +35,13 @@
            per validator, verified against the public shares (PartialsOK over all nodes); the deposit signatures are
            threshold aggregates of all partials (SigOK over all nodes); every node writes the same lock
      followed by Check over (lock public shares, keystore secret shares).
+   Mode cb: every node runs the REAL frostP2P (newFrostP2P: newBcastCallback / newP2PCallback / Round1 / Round2) and the
+   real reliable-broadcast component; only the wire below is the executor's: cast messages are captured and handed to
+   the addressed node's real bcast server handler (signature check, then the frost callback) when the schedule says,
+   share batches travel over loopback libp2p streams that are parked in front of the real stream handler until the
+   schedule releases them.  A re-delivered batch must leave the node's state untouched: the model's Redeliver changes
+   nothing, so a node that leaves a round with a duplicate in place of a missing peer's cast ends with results the
+   Check relations (gkeq, pseq, own, rec, sig) or Ret2.pskeys expose.
    Mode p2p: deliveries are the real network's and are not logged: the model delivers every sent batch at once
    (silent, canonical order, before the next event) -- sound, because results do not depend on the delivery order
    (FrostMC, free order) and a node whose real Round1/Round2 call was answered has received everything. *)
@@ -75,9 +85,12 @@ TStart == /\ IsEvent("Start") /\ ~FULL /\ Quiet /\ Ev.i \in Nodes
           /\ Rel("Start.ncomm", SeqToSet(Ev.ncomm) = {Len(c1'[Ev.i][v]) : v \in Vals})
           /\ Rel("Start.feld", Ev.feld = \A v \in Vals, j \in Nodes \ {Ev.i} : FeldmanOK(c1'[Ev.i][v], p1'[Ev.i][j][v]))
           /\ Rel("Start.ids", Ev.ids = \A v \in Vals, j \in Nodes \ {Ev.i} : p1'[Ev.i][j][v].id = j)
-TD1C == IsEvent("D1C") /\ ~P2P /\ Ev.i \in Nodes /\ Ev.j \in Nodes /\ Deliver1C(Ev.i, Ev.j)
-TD1P == IsEvent("D1P") /\ ~P2P /\ Ev.i \in Nodes /\ Ev.j \in Nodes /\ Deliver1P(Ev.i, Ev.j)
-TD2 == IsEvent("D2") /\ ~P2P /\ Ev.i \in Nodes /\ Ev.j \in Nodes /\ Deliver2(Ev.i, Ev.j)
+Wire == ~P2P /\ ~FULL /\ Ev.i \in Nodes /\ Ev.j \in Nodes
+DOk == Has(Ev, "ok") => Rel("Deliver.ok", Ev.ok)
+TD1C == IsEvent("D1C") /\ Wire /\ Deliver1C(Ev.i, Ev.j) /\ DOk
+TD1P == IsEvent("D1P") /\ Wire /\ Deliver1P(Ev.i, Ev.j) /\ DOk
+TD2 == IsEvent("D2") /\ Wire /\ Deliver2(Ev.i, Ev.j) /\ DOk
+TRD == IsEvent("RD") /\ Wire /\ Ev.k \in Kinds /\ Redeliver(Ev.i, Ev.j, Ev.k) /\ Rel("Redeliver.ok", Ev.ok)
 TRet1 == /\ IsEvent("Ret1") /\ Quiet /\ Ev.j \in Nodes /\ Ret1(Ev.j)
          /\ Rel("Ret1.ok", Ev.ok = (phase'[Ev.j] = "r2"))
          /\ Rel("Ret1.casts", Ev.ok => KeySet(Ev.casts) = {<<v, Ev.j, 0>> : v \in Vals})
@@ -115,10 +128,14 @@ TFull == /\ IsEvent("Full") /\ FULL /\ Quiet /\ AllDone /\ UNCHANGED vars
          /\ Rel("Full.deposit", Ev.deposit = \A v \in Vals, k \in Nodes : SigOK(k, v, Nodes, H))
 \* a p2p / full ceremony cut short by the real network's wall-clock timeouts: the recorded prefix stands, no verdict on the rest
 TStop == IsEvent("Stop") /\ l = TLen /\ UNCHANGED vars
-TraceNext == TReset \/ TNet \/ TAuto \/ TFull \/ TStart \/ TD1C \/ TD1P \/ TD2 \/ TRet1 \/ TRet2 \/ TCheck \/ TStop
+TraceNext == TReset \/ TNet \/ TAuto \/ TFull \/ TStart \/ TD1C \/ TD1P \/ TD2 \/ TRD \/ TRet1 \/ TRet2 \/ TCheck \/ TStop
 TraceSpec == TraceInit /\ [][TraceNext]_tvars
 Mark == /\ CheckInv("TypeOK", TypeOK) /\ CheckInv("NoFailure", NoFailure) /\ CheckInv("ThresholdIsT", ThresholdIsT)
         /\ CheckInv("Agreement", Agreement) /\ CheckInv("KeyedByShareIdx", KeyedByShareIdx)
         /\ CheckInv("OwnShareMatches", OwnShareMatches) /\ CheckInv("GroupKeyIsSum", GroupKeyIsSum)
+        /\ CheckInv("CountsDistinct", CountsDistinct)
         /\ HWMark
+ActOK == /\ CheckInv("RedeliveryNoEffect", redel' # redel =>
+                       UNCHANGED <<par, phase, poly, c1, p1, c2, got1c, got1p, got2, cnt1, cnt2, sk, vk, res>>)
+         /\ CheckInv("BarrierComplete", \A j \in Nodes : LeavesComplete(j))
 ====
